@@ -38,7 +38,8 @@ def run_case(case, acc):
     import omega.symbolic.cover as cov
     import omega.symbolic.cover_enum as cove
     ctx, f, care, names, sp = cv.build(case['grid'], case['f'], case['care'],
-                                       case['backend'])
+                                       case['backend'],
+                                       order=case.get('order', 0))
     dn, primes, k, covers, Fp, Cp = cv.reference(
         case['grid'], case['f'], case['care'])
     acc.ev(dict(c=case), nontrivial=len(covers) >= 2)
